@@ -221,6 +221,50 @@ fn case_json(own: Variant, sh: &Shape, corr: &Corr, v: &Verdict) -> Value {
            "queries": sh.qs, "corruption": corr.to_json(), "observed": v.class()})
 }
 
+/// Tables that cannot be materialised: heights up to 64 and hundreds of opened rows (sparse reference tree).
+fn tall_tables(ctx: &Ctx, own: Variant, rep: &mut Report) {
+    use crate::refm::merkle::{row_leaf, SparseTree};
+    let shapes = crate::props::c04::tall_shapes(ctx);
+    let parts: Vec<Report> = shapes
+        .par_iter()
+        .map(|(h, tag, qs)| {
+            let mut r = Report::new("C05", "exploration", "");
+            let mut rng = ctx.rng(0x05b0 + *h as u64);
+            for cols in [1usize, 2, 5] {
+                for f in [0u64, *h as u64 + 1] {
+                    let rows: std::collections::BTreeMap<u128, Vec<Felt>> = qs.iter().map(|q| (*q, rng.felts(cols))).collect();
+                    let leaves: std::collections::BTreeMap<u128, Felt> = rows.iter().map(|(i, row)| (*i, row_leaf(own, row, *h, f))).collect();
+                    let t = SparseTree::open(own, *h, f, Felt::ZERO, &leaves);
+                    let queries: Vec<Felt> = rows.keys().map(|i| crate::kit::b2f(&num_bigint::BigUint::from(*i))).collect();
+                    let values: Vec<Felt> = rows.values().flat_map(|r| r.iter().cloned()).collect();
+                    let case = |c: &str| json!({"kind": "tall", "h": h, "f": f, "cols": cols, "shape": tag, "corruption": c});
+                    let v = decommit(t.root, fu(cols as u64), *h as u64, f, &queries, &values, &t.auths);
+                    r.eval(&format!("tall:honest:{}", v.short()));
+                    r.nontrivial_case(&format!("tall|{}|{}|{}|{}|honest", h, f, cols, tag));
+                    if !v.accepted() {
+                        r.violation(&format!("table_decommit:honest:rejected:tall:{}", tag), &format!("honest opening of {} rows ({}) x {} columns in a table of height {} (f={}) rejected: {}", qs.len(), tag, cols, h, f, v.class()), case("none"));
+                        continue;
+                    }
+                    for (c, which) in [("first-cell", 0usize), ("last-cell", values.len() - 1)] {
+                        let mut v2 = values.clone();
+                        v2[which] += Felt::ONE;
+                        let v = decommit(t.root, fu(cols as u64), *h as u64, f, &queries, &v2, &t.auths);
+                        r.eval(&format!("tall:cell:{}", v.short()));
+                        r.nontrivial_case(&format!("tall|{}|{}|{}|{}|{}", h, f, cols, tag, c));
+                        if v.accepted() {
+                            r.violation(&format!("table_decommit:cell:accepted:tall:{}", tag), &format!("{} changed, {} rows ({}) x {} columns, height {} f={}: accepted", c, qs.len(), tag, cols, h, f), case(c));
+                        }
+                    }
+                }
+            }
+            r
+        })
+        .collect();
+    for p in parts {
+        rep.merge(p);
+    }
+}
+
 pub fn run(ctx: &Ctx) -> Report {
     let own = Variant::of_build();
     let mut rep = Report::new(
@@ -296,12 +340,20 @@ pub fn run(ctx: &Ctx) -> Report {
             }
         }
     }
-    rep.bound_completed = format!("columns {:?} (+ wide rows of 33 / 128 columns at heights 0, 1; thorough: 17..129); {}", cols_menu, bound.join("; "));
+    tall_tables(ctx, own, &mut rep);
+    rep.bound_completed = format!("sparse tables of height up to 64 with up to 2047 opened rows; columns {:?} (+ wide rows of 33 / 128 columns at heights 0, 1; thorough: 17..129); {}", cols_menu, bound.join("; "));
     rep.extra.insert("variant".into(), json!(own.name()));
     rep
 }
 
 pub fn replay(ctx: &Ctx, case: &Value) -> super::ReplayResult {
+    if case["kind"] == "tall" {
+        let mut rep = Report::new("C05", "exploration", "");
+        tall_tables(ctx, Variant::of_build(), &mut rep);
+        let want = format!("tall:{}", case["shape"].as_str().unwrap_or(""));
+        let hit: Vec<&String> = rep.violations.keys().filter(|k| k.ends_with(&want)).collect();
+        return Ok((!hit.is_empty(), format!("{:?}", hit)));
+    }
     let own = Variant::of_build();
     let h = case["h"].as_u64().ok_or("h")? as u32;
     let f = case["f"].as_u64().ok_or("f")?;
